@@ -128,8 +128,10 @@ func samePO(a, b kafka.PartitionOffsets) bool {
 	if a.Error != nil && a.Error.Error() != b.Error.Error() {
 		return false
 	}
-	for o, t := range a.Offsets {
-		if u, ok := b.Offsets[o]; !ok || !u.Equal(t) {
+	// the times were checked against the model; when two requested times resolve to one offset the map
+	// keeps either of them, so only the offsets are compared between the two runs
+	for o := range a.Offsets {
+		if _, ok := b.Offsets[o]; !ok {
 			return false
 		}
 	}
